@@ -72,6 +72,21 @@ def run(ctx):
         sctx = lib.slice_back(fn, ev.args[1:2], through_calls=True, at=(ev.bb, None))
         if 'EvaluationContext::EvaluationContext' not in sctx.aggs:
             ctx.bad('MPT-C10a', fn, 'evaluate is not given an EvaluationContext built for the candidate', line=ev.line, detail='evaluate-context')
+        if key.endswith('try_tantivy_search'):
+            # the Tantivy document's stored text can be stale or keyed to another frame (re-indexing, provisional
+            # instant-index ids): the authoritative text is the frame's own (TOC search_text | chunk text)
+            ectx = [(bb, i, s) for bb, i, s in fn.stmts() if s['rv']['k'] == 'agg' and s['rv'].get('adt') == 'EvaluationContext']
+            for bb, i, s in ectx:
+                ops = dict(zip(s['rv']['fields'], s['rv']['ops']))
+                tsl = lib.slice_back(fn, [ops['content_lower']], through_calls=True, at=(bb, i))
+                own = tsl.has_field('Frame', 'search_text') or bool(tsl.calls_matching('Memvid::resolve_chunk_context'))
+                stored = tsl.has_field('TantivyDocHit', 'content')
+                ctx.evaluations += 1
+                if own and not stored:
+                    ctx.ok('MPT-C10a', fn, 'evaluate runs on the frame\'s own text (TOC search_text | chunk text)', line=s.get('l'))
+                else:
+                    ctx.bad('MPT-C10a', fn, 'evaluate runs on the text stored in the Tantivy document (hit.content), not on the frame\'s own searchable text: '
+                            'a re-indexed or mis-keyed document makes a frame a hit for text it does not contain', line=s.get('l'), detail='evaluate-on-index-text')
         if key in FILTERED:
             for fld in ('uri', 'scope'):
                 used = []
